@@ -64,16 +64,18 @@ class Abstraction:
         reps = {}
         self.sub = []
         self.atoms = []  # one (representative app, atom) per distinct atom
-        for i, a in enumerate(self.apps):
+        for i, a in enumerate(self.apps):  # post-order: inner applications first
             name = a.decl().name()
+            # arguments with the inner applications already replaced by their (merged) atoms
+            aargs = [z3.substitute(a.arg(k), *self.sub) if self.sub else a.arg(k) for k in range(a.num_args())]
             atom = None
-            for (r, v) in reps.get(name, []):
-                if r.num_args() == a.num_args() and all(_same_term(r.arg(k), a.arg(k)) for k in range(a.num_args())):
+            for (r, rargs, v) in reps.get(name, []):
+                if len(rargs) == len(aargs) and all(_same_term(x, y) for x, y in zip(rargs, aargs)):
                     atom = v
                     break
             if atom is None:
                 atom = z3.Real(f"@{name}#{i}")
-                reps.setdefault(name, []).append((a, atom))
+                reps.setdefault(name, []).append((a, aargs, atom))
                 self.atoms.append((a, atom))
             self.sub.append((a, atom))
         self._cache = {}
@@ -195,6 +197,13 @@ def axioms(ab, max_pairs=3000, max_triples=600):
                 ax.append(z3.Implies(z3.And(A(b) + x * x == 0, A(c) == x), va * vb == (1 - vc)))
                 ax.append(z3.Implies(z3.And(A(b) + x * x == 0, A(c) + x == 0), va * vb == (1 + vc)))
                 ax.append(z3.Implies(z3.And(A(b) == x * x, A(c) + x == 0), va == vb * (1 + vc)))
+
+    AB = by.get("abs", [])
+    for a, va in AB:
+        x = A(a)
+        ax += [va >= 0, z3.Implies(x >= 0, va == x), z3.Implies(x <= 0, va == -x), va * va == x * x]
+    for (a, va), (b, vb) in itertools.islice(itertools.combinations(AB, 2), max_pairs):
+        ax += [z3.Implies(A(a) + A(b) == 0, va == vb)]
 
     for name in ("cos", "sin"):
         for a, va in by.get(name, []):
